@@ -9,13 +9,28 @@ package splat
 // the reader.  "exit" clauses are postconditions over the function's locals at every return.
 
 //@ func Read
-//@   props C14
+//@   props C14 C15
 //@   modifies ghost consumed
 //@   returns mesh, err
 //@   exit whole_records_only: len(positionData) * 32 <= consumed(in) - old(consumed(in))
 //@   exit one_entry_per_record: len(scaleData) == len(positionData) && len(colorData) == len(positionData) && len(opacityData) == len(positionData) && len(rotationData) == len(positionData)
 //@   exit clean_end_means_no_partial_record: err == nil ==> consumed(in) - old(consumed(in)) == len(positionData) * 32
+//@   exit [C15] colour_law: forall k int :: {tr(k)} tr(k) && 0 <= k && k < len(colorData) ==> (let b = old(consumed(in)) + 32 * k in
+//@       colorData[k].X() == ((real(stream(in, b + 24)) / 255.0) - 0.5) / SH_C0 &&
+//@       colorData[k].Y() == ((real(stream(in, b + 25)) / 255.0) - 0.5) / SH_C0 &&
+//@       colorData[k].Z() == ((real(stream(in, b + 26)) / 255.0) - 0.5) / SH_C0)
+//@   exit [C15] rotation_law: forall k int :: {tr(k)} tr(k) && 0 <= k && k < len(rotationData) ==> (let b = old(consumed(in)) + 32 * k in
+//@       rotationData[k].X() == (real(stream(in, b + 28)) - 128.0) / 128.0 && rotationData[k].Y() == (real(stream(in, b + 29)) - 128.0) / 128.0 &&
+//@       rotationData[k].Z() == (real(stream(in, b + 30)) - 128.0) / 128.0 && rotationData[k].W() == (real(stream(in, b + 31)) - 128.0) / 128.0)
 //@   loop 1:
+//@     invariant [C15] separate_arrays: ref(colorData) != ref(positionData) && ref(colorData) != ref(scaleData) && fresh(positionData) && fresh(scaleData)
+//@     invariant [C15] colours: fresh(colorData) && (forall k int :: {tr(k)} tr(k) && 0 <= k && k < len(colorData) ==> (let b = old(consumed(in)) + 32 * k in
+//@       colorData[k].X() == ((real(stream(in, b + 24)) / 255.0) - 0.5) / SH_C0 &&
+//@       colorData[k].Y() == ((real(stream(in, b + 25)) / 255.0) - 0.5) / SH_C0 &&
+//@       colorData[k].Z() == ((real(stream(in, b + 26)) / 255.0) - 0.5) / SH_C0))
+//@     invariant [C15] rotations: fresh(rotationData) && (forall k int :: {tr(k)} tr(k) && 0 <= k && k < len(rotationData) ==> (let b = old(consumed(in)) + 32 * k in
+//@       rotationData[k].X() == (real(stream(in, b + 28)) - 128.0) / 128.0 && rotationData[k].Y() == (real(stream(in, b + 29)) - 128.0) / 128.0 &&
+//@       rotationData[k].Z() == (real(stream(in, b + 30)) - 128.0) / 128.0 && rotationData[k].W() == (real(stream(in, b + 31)) - 128.0) / 128.0))
 //@     invariant len(splatBuffer) == 32 && fresh(splatBuffer)
 //@     invariant len(positionData) * 32 == consumed(in) - old(consumed(in))
 //@     invariant len(scaleData) == len(positionData) && len(colorData) == len(positionData) && len(opacityData) == len(positionData) && len(rotationData) == len(positionData)
